@@ -39,6 +39,11 @@ type CliScenario struct {
 	Stale int `json:"stale_dest_bytes,omitempty"`
 	// GName: file name of the grammar (default g.peg)
 	GName string `json:"grammar_name,omitempty"`
+	// Spell: how relative names are written on the command line: 0 "n",
+	// 1 "./n", 2 "sub/../n", 3 ".//n" (all name the same file)
+	Spell int `json:"spell,omitempty"`
+	// DName: file name of a named destination (default out.go)
+	DName string `json:"dest_name,omitempty"`
 	// DestLink: "symlink" or "hardlink": the named destination already exists
 	// as a link to another file in the directory
 	DestLink string `json:"dest_link,omitempty"`
@@ -155,7 +160,19 @@ func (sc *CliScenario) layout(dir string) cliLayout {
 		if sc.Abs {
 			return filepath.Join(dir, n)
 		}
+		switch sc.Spell {
+		case 1:
+			return "./" + n
+		case 2:
+			return "sub/../" + n
+		case 3:
+			return ".//" + n
+		}
 		return n
+	}
+	dname := "out.go"
+	if sc.DName != "" {
+		dname = sc.DName
 	}
 	// the harness's own files live next to, not inside, the run directory:
 	// everything below the run directory is fair game for fault injection
@@ -164,7 +181,7 @@ func (sc *CliScenario) layout(dir string) cliLayout {
 	out := ""
 	switch sc.Dest {
 	case "named":
-		out = name("out.go")
+		out = name(dname)
 	case "stdout":
 		out = "-"
 	case "readonlyfile":
@@ -233,6 +250,11 @@ func (l *cliLayout) prepare(sc *CliScenario) error {
 	}
 	if err := os.MkdirAll(l.dir+".io", 0o755); err != nil {
 		return err
+	}
+	if sc.Spell == 2 {
+		if err := os.MkdirAll(filepath.Join(l.dir, "sub"), 0o755); err != nil {
+			return err
+		}
 	}
 	switch sc.Source {
 	case "unreadable":
@@ -710,6 +732,9 @@ func (e *Env) cliScenarios(texts []cliText, r *simrt.SplitMix64, n int) []CliSce
 		sc.Abs = r.Chance(1, 2)
 		if (sc.Source == "stdin" || sc.Source == "dash") && r.Chance(1, 2) {
 			sc.StdinPipe = []int{1, 7, 64, 500, 4096}[r.Intn(5)]
+			// one chunk per read call of peg, every call a traced stop and a
+			// place for a fault: at most a few hundred of them
+			sc.StdinPipe = max(sc.StdinPipe, len(sc.Text)/300)
 		}
 		if (sc.Dest == "named" || sc.Dest == "default") && r.Chance(1, 3) {
 			sc.Stale = []int{10, 5000, 400000}[r.Intn(3)]
@@ -722,6 +747,22 @@ func (e *Env) cliScenarios(texts []cliText, r *simrt.SplitMix64, n int) []CliSce
 		}
 		if r.Chance(1, 4) {
 			sc.Env = 1
+		}
+		// the same files under other spellings, and names that look like
+		// something else (a file called "-" can only be written "./-")
+		if r.Chance(1, 3) {
+			sc.Spell = 1 + r.Intn(3)
+		}
+		if r.Chance(1, 6) {
+			odd := []string{"-", "--", "-x.go", "-output", "out", "-.go"}[r.Intn(6)]
+			if sc.Dest == "named" && r.Chance(1, 2) {
+				sc.DName = odd
+			} else {
+				sc.GName = strings.TrimSuffix(odd, ".go")
+			}
+			if !sc.Abs && sc.Spell == 0 {
+				sc.Spell = 1
+			}
 		}
 		if r.Chance(1, 5) {
 			sc.Unpriv = true
@@ -951,6 +992,32 @@ func CheckC18(e *Env) (int, error) {
 	})
 	if err != nil {
 		return 2, err
+	}
+	// a broken scenario violates under every one of its faults: keep the
+	// simplest dozen (fewest faults first, one per class and scenario shape
+	// before a second of the same), minimise those
+	if len(viols) > 12 {
+		sort.SliceStable(viols, func(i, j int) bool {
+			a, b := viols[i].Replay.(*CliCase), viols[j].Replay.(*CliCase)
+			if len(a.Faults) != len(b.Faults) {
+				return len(a.Faults) < len(b.Faults)
+			}
+			return viols[i].Class+"|"+viols[i].Key < viols[j].Class+"|"+viols[j].Key
+		})
+		seenShape := map[string]bool{}
+		var first, rest []Violation
+		for _, v := range viols {
+			c := v.Replay.(*CliCase)
+			shape := fmt.Sprintf("%s|%s|%s|%s|%d|%s|%s", v.Class, c.Sc.TextKind, c.Sc.Source, c.Sc.Dest, c.Sc.Spell, c.Sc.GName, c.Sc.DName)
+			if !seenShape[shape] {
+				seenShape[shape] = true
+				first = append(first, v)
+			} else {
+				rest = append(rest, v)
+			}
+		}
+		fmt.Printf("C18: %d violating runs; minimising and reporting the simplest 12\n", len(viols))
+		viols = append(first, rest...)[:12]
 	}
 	// minimise: prefer the scenario with fewest faults / shortest text per key
 	for i := range viols {
